@@ -220,6 +220,19 @@ def _is_attach_filter(gd: str) -> bool:
     return False
 
 
+def _is_context_switch(gd: str) -> bool:
+    """A guard over the writing context only: built from the `in_project` argument and `self.parent` (its default), e.g.
+    `self.parent is not None if in_project is None else in_project`."""
+    try:
+        e = ast.parse(gd, mode="eval").body
+    except SyntaxError:
+        return False
+    names = {n.id for n in ast.walk(e) if isinstance(n, ast.Name)}
+    attrs = {norm(n) for n in ast.walk(e) if isinstance(n, ast.Attribute)}
+    calls = [n for n in ast.walk(e) if isinstance(n, ast.Call)]
+    return "in_project" in names and names <= {"in_project", "self"} and attrs <= {"self.parent"} and not calls
+
+
 def omission_defaults(repo: Repo, rep, P: str, secs):
     owners = {
         "project": repo.cls("Project", module="rv.project"),
@@ -236,7 +249,7 @@ def omission_defaults(repo: Repo, rep, P: str, secs):
             for gd in w.guards:
                 from ..guards import canon_text
                 cg = canon_text(gd)
-                if any(cg == canon_text(s) for s, _ in STRUCTURAL_GUARDS) or _is_attach_filter(gd):
+                if any(cg == canon_text(s) for s, _ in STRUCTURAL_GUARDS) or _is_attach_filter(gd) or _is_context_switch(gd):
                     continue
                 n += 1
                 wcon = f"{w.rel}:{w.fn}[{w.cid}]"
